@@ -42,6 +42,7 @@ struct ItemSpec {
     mode: String, // verify | trusted | plain
     tmpl_line: usize,
     sig: Vec<String>,
+    first: Vec<String>,
     retname: Option<String>,
     ret: Option<String>,
     loops: Vec<(String, Vec<String>)>,
@@ -231,6 +232,7 @@ fn parse_template(text: &str) -> Vec<Result<String, ItemSpec>> {
     enum Sec {
         None,
         Sig,
+        First,
         Loop(usize),
         Before(usize),
         After(usize),
@@ -284,6 +286,7 @@ fn parse_template(text: &str) -> Vec<Result<String, ItemSpec>> {
                         .unwrap_or_else(|| die(&format!("template line {}: directive outside item", ln + 1)));
                     match cmd {
                         "sig" => sec = Sec::Sig,
+                        "first" => sec = Sec::First,
                         "retname" => spec.retname = Some(arg.to_string()),
                         "ret" => spec.ret = Some(arg.to_string()),
                         "viter" => spec.viter = true,
@@ -349,6 +352,7 @@ fn parse_template(text: &str) -> Vec<Result<String, ItemSpec>> {
                     }
                 }
                 Sec::Sig => spec.sig.push(line.to_string()),
+                Sec::First => spec.first.push(line.to_string()),
                 Sec::Loop(i) => spec.loops[i].1.push(line.to_string()),
                 Sec::Before(i) => spec.befores[i].1.push(line.to_string()),
                 Sec::After(i) => spec.afters[i].1.push(line.to_string()),
@@ -683,6 +687,14 @@ fn fn_edits(
         edits.push(Edit { start: bstart, end: bend, text: "{ unimplemented!() }".into(), kind: "R7 stub".into(), prio: 6 });
         rewrites.push("R7 body replaced by unimplemented!() under external_body".into());
         return;
+    }
+    if !spec.first.is_empty() {
+        let mut t = String::from("\n");
+        for l in &spec.first {
+            t.push_str(l);
+            t.push('\n');
+        }
+        edits.push(Edit { start: bstart + 1, end: bstart + 1, text: t, kind: "first".into(), prio: 3 });
     }
     let mut c = rewrite::Collector::default();
     c.visit_block(block);
